@@ -471,7 +471,7 @@ func checkC13(c *h.Check) {
 	c.Coverage["rejected"] = rej
 	c.Coverage["classes"] = kinds.summary()
 	c.Coverage["rule"] = fmt.Sprintf("%d base expression forms (literals of every basic kind, composite literals of struct/array/[...]/slice/map/pointer/anonymous struct, conversions to named/func/pointer types, unary and binary operators, selectors of variables/fields/method values, indexing, slicing incl. 3-index, dereference, type assertion, function literals; calls of functions, methods, func variables, variables of named func type, generic instantiations, function literals, every builtin, receive; interface-typed values; unexported variables, types and fields) x %d parents (whole, parenthesised, slice element, struct field, map value, indexed literal, binary/unary operand, address of a literal) x home package {injector's, another}; wire.InterfaceValue with implementing / non-implementing / calling values; identical expression text in two packages used by two injectors. Must-reject classes must be rejected with nothing written; accepted expressions are compiled and run: both calls and a second injector sharing the expression must return a value DeepEqual to the same expression evaluated in its home package, and pointer-like results must be the very same pointer. Distinct = distinct rendered source.", len(bases), len(parents))
-	if len(cases) > 0 {
+	if len(cases) > 0 && len(results) == len(cases) {
 		i := len(cases) / 2
 		c.Samples = append(c.Samples, map[string]interface{}{"case": cases[i].ID, "files": cases[i].Files, "trace": results[i].Trace})
 	}
